@@ -18,6 +18,7 @@ RULE = ("(1) prefix consistency: every generated program s1..sn is also run cut 
 RULE += (" " + 'Also: every pairing of the two binding statements (let, constraint) on one name - adjacent, apart, used in between, in module bodies - must fail, the same names in different scopes must build; duplicate parameter names must fail.')
 RULE += (" " + 'Eight scoping templates in which the shadowed outer binding is read by the statement just before the function / callback / format is defined, or inside the same statement.')
 RULE += (" " + '48 / 320 sessions piped into `ucg repl`: binding, closure over it, a rejected rebinding (let, constraint, other type, function), then reads of the name, the closure and a dependent binding.')
+RULE += (" " + 'Round 8: the rebinding catalogue is also run with strict checking off (eval, build, and every 7th case through the CLI --no-strict build): immutability does not depend on that flag.')
 
 INDEX_MD = os.path.join(core.REPO, "docsite/site/content/reference/_index.md")
 
